@@ -49,6 +49,8 @@ struct fitcfg
   unsigned k = 1;      // coarseness: larger = more ties
   unsigned salt = 0;   // THE DATA the evaluator reads: a shake functor replaces it (0 = the data every run
                        // starts with; the scores below are the pre-shake ones for salt 0)
+  unsigned fastk = 0;  // != 0: evaluator::fast() is a really different, coarser score (coarseness k*fastk+1), as
+                       // the sum-of-errors evaluators' is on >= 100 examples; 0: fast() is operator()
 };
 
 double raw_fit(const i_ga &x, const fitcfg &c)
@@ -89,6 +91,15 @@ class h_eval : public evaluator<T>
 public:
   explicit h_eval(const fitcfg *c) : c_(c) {}
   fitness_t operator()(const T &x) override { return {raw_fit(x, *c_)}; }
+  // the approximation brood recombination ranks its candidates with: NOT the fitness, it must never be
+  // remembered as such (the monitor's reference `raw_fit` is cache-less and exact)
+  fitness_t fast(const T &x) override
+  {
+    if (!c_->fastk) return {raw_fit(x, *c_)};
+    fitcfg f(*c_);
+    f.k = f.k * f.fastk + 1;
+    return {raw_fit(x, f)};
+  }
 
 private:
   const fitcfg *c_;
@@ -185,7 +196,7 @@ struct runcfg
   std::string strat = "std";   // std | de | alps
   unsigned seed = 1;
   unsigned individuals = 20, min_individuals = 2, layers = 1, generations = 3;
-  unsigned tournament = 3, mate_zone = 20, brood = 1, age_gap = 3, cache = 0, fitk = 1;
+  unsigned tournament = 3, mate_zone = 20, brood = 1, age_gap = 3, cache = 0, fitk = 1, fast = 0;
   int elitism = 1;
   double p_cross = 0.9, p_mutation = 0.04, p_same = 0.75;
 
@@ -236,6 +247,7 @@ runcfg parse_cfg(const std::vector<std::string> &t, std::size_t from, std::map<s
     else if (k == "age_gap") c.age_gap = std::stoul(v);
     else if (k == "cache") c.cache = std::stoul(v);
     else if (k == "fitk") c.fitk = std::stoul(v);
+    else if (k == "fast") c.fast = std::stoul(v);
     else if (k == "elitism") c.elitism = std::stoi(v);
     else if (k == "p_cross") c.p_cross = std::stod(v);
     else if (k == "p_mutation") c.p_mutation = std::stod(v);
@@ -644,7 +656,7 @@ void whole_run(const runcfg &c, unsigned runs, shake_plan plan)
 
   monitor<T> mon;
   mon.cfg = c;
-  mon.fc = fitcfg{c.fitk, 0};      // the data; the evaluator reads them through the pointer
+  mon.fc = fitcfg{c.fitk, 0, c.fast};      // the data; the evaluator reads them through the pointer
   mon.same_object = true;
   g_mon<T> = &mon;
   auto eva(make_eva<T>(c, &mon.fc));
@@ -742,7 +754,7 @@ void whole_search(const runcfg &c, unsigned runs, F f, const std::map<std::strin
 
   monitor<T> mon;
   mon.cfg = c;
-  mon.fc = fitcfg{c.fitk, 0};
+  mon.fc = fitcfg{c.fitk, 0, c.fast};
   g_search_fc = &mon.fc;
   g_mon<T> = &mon;
 
@@ -793,6 +805,62 @@ void case_search(const std::vector<std::string> &t)
   else if (extra["T"] == "de")
     whole_search<i_de, mon_de, de_problem>(c, runs, &de_search_fit, extra);
   else emit("bad:unknown-search-case", "-", "noop");
+}
+
+// ---------------------------------------------------------------------------------------
+// case: a whole src_search (symbolic regression, sum-of-errors evaluator on >= 100 examples: its fast()
+// really skips examples) with brood recombination and the evaluation cache; reference = an independent
+// cache-less evaluator of the same kind over the same data, consulted after every generation
+// ---------------------------------------------------------------------------------------
+template<template<class> class ES, class REF>
+void src_run(const runcfg &c, unsigned rows, evaluator_id id)
+{
+  std::ostringstream data;
+  data.precision(17);
+  for (unsigned i(0); i < rows; ++i)
+  {
+    const double x(-3.0 + 6.0 * i / (rows - 1.0));
+    data << x * x * x - 2.0 * x + 3.0 * std::sin(4.0 * x) << ',' << x << '\n';
+  }
+  std::istringstream in(data.str());
+  src_problem prob(in);
+  prob.insert<real::sin>();
+  prob.insert<real::add>();
+  prob.insert<real::sub>();
+  prob.insert<real::mul>();
+  c.apply(prob.env);
+  prob.env.mep.code_length = 24;
+  prob.env.mep.patch_length = 2;
+  REF reference(prob.data());
+
+  random::seed(c.seed);
+  src_search<i_mep, ES> s(prob);
+  s.evaluator(id);
+  unsigned gens(0);
+  s.after_generation([&](const population<i_mep> &, const summary<i_mep> &sum)
+                     {
+                       ++gens;
+                       const bool ok(sum.best.score.fitness == reference(sum.best.solution));
+                       emit(!ok ? "bad:best-not-eval" : sum.last_imp > sum.gen ? "bad:last-imp-after-gen" : "ok",
+                            "-", "noop");
+                     });
+  const auto res(s.run());
+  if (!gens) emit("bad:callback-count", "-", "noop");
+  emit(res.best.score.fitness == reference(res.best.solution) ? "ok" : "bad:search-best-not-eval", "-", "noop");
+}
+
+void case_srcrun(const std::vector<std::string> &t)
+{
+  std::map<std::string, std::string> extra;
+  const runcfg c(parse_cfg(t, 1, &extra));
+  const unsigned rows(std::stoul(extra["rows"]));
+  const std::string eva(extra["eva"]);
+  if (rows < 2) { emit("bad:unknown-srcrun-case", "-", "noop"); return; }
+  if (c.strat == "std" && eva == "mae") src_run<std_es, mae_evaluator<i_mep>>(c, rows, evaluator_id::mae);
+  else if (c.strat == "std" && eva == "rmae") src_run<std_es, rmae_evaluator<i_mep>>(c, rows, evaluator_id::rmae);
+  else if (c.strat == "std" && eva == "mse") src_run<std_es, mse_evaluator<i_mep>>(c, rows, evaluator_id::mse);
+  else if (c.strat == "alps" && eva == "mae") src_run<alps_es, mae_evaluator<i_mep>>(c, rows, evaluator_id::mae);
+  else emit("bad:unknown-srcrun-case", "-", "noop");
 }
 
 void case_run(const std::vector<std::string> &t)
@@ -852,7 +920,7 @@ void components(const runcfg &c, const std::string &what, unsigned count)
 
   monitor<T> mon;
   mon.cfg = c;
-  mon.fc = fitcfg{c.fitk, 0};
+  mon.fc = fitcfg{c.fitk, 0, c.fast};
   auto eva(make_eva<T>(c, &mon.fc));
   population<T> pop(pf.prob);
   prepare(pop, c, rng);
@@ -971,6 +1039,7 @@ int main(int argc, char *argv[])
       if (t[0] == "comp") case_components(t);
       else if (t[0] == "run") case_run(t);
       else if (t[0] == "search") case_search(t);
+      else if (t[0] == "srcrun") case_srcrun(t);
       else emit("bad:unknown-case", "-", "noop");
       std::cout.flush();
       std::exit(0);
